@@ -415,7 +415,7 @@ func RunJob(P *Program, spec JobSpec, kf map[string]bool) *JobResult {
 	}
 	to := spec.SolverTimeoutMs
 	if to == 0 {
-		to = 60000
+		to = 30000
 	}
 	inc := spec.IncTimeoutMs
 	if inc == 0 {
